@@ -72,7 +72,9 @@ LoadState(e) ==
 EInit == Has /\ Ev.ev = "init" /\ l' = l + 1 /\ NoSig /\ good' = TRUE /\ LoadState(Ev) /\ p' = Idle /\ g' = G0 /\ out' = <<>>
 EDev  == Has /\ Ev.ev = "dev" /\ p.pc = "idle" /\ Adv /\ Keep /\ Quiet /\ LoadState(Ev) /\ p' = Idle
          /\ g' = [g EXCEPT !.exit = XNone, !.clean = FALSE, !.lastCheck = Null]
-EStart == Has /\ Ev.ev = "start" /\ good /\ Adv /\ Keep /\ StartRun(Ev.mode, Ev.cache, "ok") /\ out' = <<{22}>>
+(* the state of the configuration is part of the start event ("ok" when absent) *)
+StartClass == IF "cc" \in DOMAIN Ev THEN Ev.cc ELSE "ok"
+EStart == Has /\ Ev.ev = "start" /\ good /\ Adv /\ Keep /\ StartRun(Ev.mode, Ev.cache, StartClass) /\ out' = <<{22}>>
 
 -----------------------------------------------------------------------------
 IsOp(c, o) == Has /\ Ev.ev = "op" /\ Ev.cls = c /\ Ev.op = o
@@ -95,7 +97,9 @@ StartOf(i) == IF Rec[i].ev = "start" THEN i ELSE StartOf(i - 1)
 ObservedOrder == Rec[StartOf(l - 1)].order
 IsPrefixOf(a, b) == Len(a) <= Len(b) /\ \A i \in 1..Len(a) : a[i] = b[i]
 
-DiscoverSays == IF p.stop \/ present = {} THEN <<FailCode>>
+DiscoverSays == IF p.cc = "nosourcedir" /\ ~p.stop THEN <<{1}, FailCode>>        \* "Failed to read metadata of ..."
+                ELSE IF p.cc = "sourcedirfile" /\ ~p.stop THEN <<{2}, FailCode>> \* "... is not a directory"
+                ELSE IF p.stop \/ present = {} THEN <<FailCode>>
                 ELSE IF p.mode = "check" THEN <<{15}>>
                 ELSE IF p.cached # NoRef THEN <<{16}, {17}, {20}>> ELSE <<{16}, {18}>>
 TDiscover == Silent(Discover, DiscoverSays) /\ (p'.pc # "idle" => IsPrefixOf(ObservedOrder, p'.order))
@@ -169,7 +173,10 @@ TLockTruncFail == With(LockTrunc /\ NewFault, IsOp("lock", "create") /\ ~Ev.ok, 
 TLockWriteOk   == With(LockWrite /\ NoNewFault, IsOp("lock", "write") /\ Ev.ok, <<>>)
 TLockWriteFail == With(LockWrite /\ NewFault, IsOp("lock", "write") /\ ~Ev.ok, <<{33}>>)
 ExitSays == IF p.pc = "exitfinal" THEN <<{21}>> \o (IF p.failure THEN <<{30}>> ELSE <<>>)
-            ELSE IF p.pc = "exit2" /\ p.handlers THEN <<FailCode>> ELSE <<>>
+            ELSE IF p.pc = "exit2" /\ p.handlers THEN <<FailCode>>
+            ELSE IF p.pc = "exit2" /\ p.cc = "missing" THEN <<{23}>>       \* "Failed to read configuration file"
+            ELSE IF p.pc = "exit2" /\ p.cc = "invalid" THEN <<{24}>>       \* "Failed to load configuration"
+            ELSE <<>>
 ReadLockSays == IF p.cache /\ lock = LCorrupt THEN <<{31}>> ELSE <<>>
 HandlersSay == <<{25}, IF p.mode = "check" THEN {27} ELSE {29}>>
 TSigArrive == /\ good /\ Has /\ Ev.ev = "sig" /\ pend = "none"
